@@ -73,6 +73,19 @@ CHECKS = {
             "The reference (internal/zzverifref: std + x/crypto primitives, own CCM/PRF/HKDF/key schedule) is validated against RFC "
             "5869, RFC 8448 and RFC 3610 vectors; DTLS 1.3 secrets are read from the endpoint's key schedule (no 1.3 key log exists).",
             "DESIGN.md §4 C10"),
+    "C08": ("exploration",
+            "runtime monitoring under hostile input: process-survival and livelock watchdogs with per-case attribution, "
+            "synctest deadlock detector, still-serves-traffic oracle, stated-limit assertions and a plateau test of every "
+            "per-connection container",
+            "Hostile datagrams from five generators (raw bytes, record grammar, handshake-fragment grammar, mutated genuine traffic, "
+            "records correctly sealed with the session keys but malformed inside, incl. all-padding CBC records) are injected into clients "
+            "and servers after every k-th genuine datagram of 15 handshake variants (all decrypt paths) and into established connections. "
+            "Unparseable (by the library's own unpack functions) or unauthentic batches must leave the handshake completing and data "
+            "flowing; any batch must leave the process alive and making progress; queue/fragment limits are asserted; container sizes at "
+            "N/2N/4N hostile datagrams (incl. authentic retransmissions of the final flight) must plateau.",
+            "Parseable epoch-0 plaintext is only required not to crash/wedge/bloat (DTLS cannot authenticate epoch 0). A process death or "
+            "hang is attributed by re-running the in-flight cases alone.",
+            "DESIGN.md §4 C08"),
 }
 
 NOT_YET = "monitor not built yet in this session (see DESIGN.md for the planned design)"
